@@ -102,6 +102,8 @@ func instrumentFile(path string) (int, error) {
 	}
 	base := filepath.Base(path)
 	n := 0
+	locks := 0
+	_ = locks
 	var doBlock func(list []ast.Stmt) []ast.Stmt
 	var doStmt func(s ast.Stmt)
 	yield := func(pos token.Pos) ast.Stmt {
@@ -120,6 +122,23 @@ func instrumentFile(path string) (int, error) {
 				out = append(out, yield(s.Pos()))
 			}
 			doStmt(s)
+			// lock operations are bracketed with notifications so that the
+			// simulator can gate a task before it would block for real
+			if op, name, root, isDefer := lockOp(s); op != "" {
+				locks++
+				switch {
+				case isDefer:
+					// runs after the deferred unlock (LIFO)
+					out = append(out, &ast.DeferStmt{Call: syncCall(op, name, root)}, s)
+				case op == "lock" || op == "rlock":
+					out = append(out, &ast.ExprStmt{X: syncCall(op, name, root)}, s)
+				case op == "once":
+					out = append(out, &ast.ExprStmt{X: syncCall("once", name, root)}, s, &ast.ExprStmt{X: syncCall("onced", name, root)})
+				default: // unlock, runlock
+					out = append(out, s, &ast.ExprStmt{X: syncCall(op, name, root)})
+				}
+				continue
+			}
 			out = append(out, s)
 		}
 		return out
@@ -189,3 +208,93 @@ func instrumentFile(path string) (int, error) {
 }
 
 var marked = map[*ast.FuncLit]bool{}
+
+// lockOp recognises X.Lock(), X.RLock(), X.Unlock(), X.RUnlock(), defer
+// X.Unlock(), defer X.RUnlock() and <once>.Do(f) statements. It returns the
+// operation, the text of X and the leftmost identifier X is reached from.
+func lockOp(s ast.Stmt) (op, name string, root *ast.Ident, isDefer bool) {
+	var call *ast.CallExpr
+	switch x := s.(type) {
+	case *ast.ExprStmt:
+		call, _ = x.X.(*ast.CallExpr)
+	case *ast.DeferStmt:
+		call = x.Call
+		isDefer = true
+	}
+	if call == nil {
+		return "", "", nil, false
+	}
+	sel, ok := call.Fun.(*ast.SelectorExpr)
+	if !ok {
+		return "", "", nil, false
+	}
+	switch sel.Sel.Name {
+	case "Lock":
+		op = "lock"
+	case "RLock":
+		op = "rlock"
+	case "Unlock":
+		op = "unlock"
+	case "RUnlock":
+		op = "runlock"
+	case "Do":
+		op = "once"
+	default:
+		return "", "", nil, false
+	}
+	if len(call.Args) != 0 && op != "once" {
+		return "", "", nil, false
+	}
+	if isDefer && (op == "lock" || op == "rlock" || op == "once") {
+		return "", "", nil, false
+	}
+	name = exprText(sel.X)
+	if op == "once" && !strings.Contains(strings.ToLower(name), "once") {
+		return "", "", nil, false
+	}
+	root = rootIdent(sel.X)
+	if root == nil || name == "" {
+		return "", "", nil, false
+	}
+	return op, name, root, isDefer
+}
+
+func rootIdent(e ast.Expr) *ast.Ident {
+	for {
+		switch x := e.(type) {
+		case *ast.Ident:
+			return x
+		case *ast.SelectorExpr:
+			e = x.X
+		case *ast.ParenExpr:
+			e = x.X
+		case *ast.StarExpr:
+			e = x.X
+		default:
+			return nil
+		}
+	}
+}
+
+func exprText(e ast.Expr) string {
+	switch x := e.(type) {
+	case *ast.Ident:
+		return x.Name
+	case *ast.SelectorExpr:
+		if t := exprText(x.X); t != "" {
+			return t + "." + x.Sel.Name
+		}
+	case *ast.ParenExpr:
+		return exprText(x.X)
+	case *ast.StarExpr:
+		return exprText(x.X)
+	}
+	return ""
+}
+
+func syncCall(op, name string, root *ast.Ident) *ast.CallExpr {
+	return &ast.CallExpr{Fun: ast.NewIdent("verifSync"), Args: []ast.Expr{
+		&ast.BasicLit{Kind: token.STRING, Value: strconv.Quote(op)},
+		&ast.BasicLit{Kind: token.STRING, Value: strconv.Quote(name)},
+		ast.NewIdent(root.Name)}}
+}
